@@ -56,6 +56,15 @@ Example C17_drain_refused : run_C17 witness_drain = [2; 2].
 Proof. exact drain_refused. Qed.
 Print Assumptions C17_drain_refused.
 
+(* every text field of a row set to null, then text set again: former text not found, new text found *)
+Example C17_null_all_ok :
+  known_C17 example_null_all = [] /\ fev_guard (frun_events (c17_init example_null_all) (c17_ops example_null_all)) = false /\
+  spec_C17 example_null_all (run_C17 example_null_all) = true /\
+  map (fun w => search (frun_state (c17_init example_null_all) (firstn 4 (c17_ops example_null_all))) w) [t_delta; t_alpha; t_epsilon] = [[]; []; [2%N]] /\
+  map (fun w => search (frun_state (c17_init example_null_all) (c17_ops example_null_all)) w) [t_delta; t_alpha; t_epsilon] = [[1%N]; [2%N]; []].
+Proof. exact null_all_ok. Qed.
+Print Assumptions C17_null_all_ok.
+
 Example C17_nonvacuous :
   known_C17 example_ok = [] /\ fev_guard (frun_events (c17_init example_ok) (c17_ops example_ok)) = false /\
   spec_C17 example_ok (run_C17 example_ok) = true /\
